@@ -648,7 +648,9 @@ def gen_history(rng, directed=None):
                 release, count = rng.choice(stocked)
                 events.append(['explicit', reg, release, rng.randint(1, count), rng.choice(['str', 'int', 'key'])])
     events.append(['sync', rng.randrange(nreg)])
-    return {'configured': configured, 'registries': nreg, 'events': events}
+    # every other history is served next to further Latest selectors of the same process asked against the same registries
+    # (a gateway serves several applications): one for another project, and an unconfigured twin of a configured selector
+    return {'configured': configured, 'registries': nreg, 'events': events, 'bystanders': rng.random() < 0.5}
 
 
 def check_history(ctx, lab, probe, application, asset, history):
@@ -734,10 +736,43 @@ def check_history(ctx, lab, probe, application, asset, history):
         return False
 
     step_synced = [False]
+    others = []  # further selectors living in this process: (selector, project, judged)
+
+    def neighbours(step):
+        """Every other selector is asked against every registry; the one of the other project must keep returning that
+        project's only generation."""
+        for other, project, want in others:
+            for reg, directory in enumerate(dirs):
+                try:
+                    got = describe(other.select(directory, None, None))
+                except Exception as err:  # pylint: disable=broad-except
+                    if want is None:
+                        continue
+                    ctx.violation('latest-neighbour-selector-raises', f'Latest({project!r}) living next to Latest(\'p\', '
+                                  f'{configured}) raised {err!r} against registry #{reg}', dict(witness, step=step))
+                    return False
+                ctx.count('latest_neighbour_selects')
+                if want is not None and got[:3] != (project,) + want[reg][:2]:
+                    ctx.violation('latest-neighbour-selector-wrong-instance', f'Latest({project!r}) living next to Latest(\'p\', '
+                                  f'{configured}) returned {got} against registry #{reg}, that project holds only {want[reg]}',
+                                  dict(witness, step=step))
+                    return False
+        return True
+
     try:
+        if history.get('bystanders'):
+            want = []
+            for directory in dirs:
+                lab.publish(directory, 'q', '7.7')
+                want.append(('7.7',) + lab.commit(directory, 'q', '7.7', 1))
+            others.append((application.Latest('q', refresh=INTERVAL), 'q', want))
+            if configured is not None:
+                others.append((application.Latest('p', refresh=INTERVAL), 'p', None))
         for step, event in enumerate(history['events']):
             kind, reg = event[0], event[1]
             step_synced[0] = False
+            if kind in ('select', 'sync') and not neighbours(step):
+                return
             if kind == 'release':
                 lab.publish(dirs[reg], 'p', event[2], event[3])
                 model[reg][event[2]] = []
@@ -810,8 +845,10 @@ def check_history(ctx, lab, probe, application, asset, history):
             ctx.shape(('latest', configured, history['registries'], history['events']))
     finally:
         probe.retire(selector)
+        for other, _, _ in others:
+            probe.retire(other)
         with probe.cond:
-            probe.picks[:] = [p for p in probe.picks if p['selector'] is not selector]
+            probe.picks[:] = [p for p in probe.picks if p['selector'] is not selector and all(p['selector'] is not o for o, _, _ in others)]
             probe.sleeps.clear()
 
 
